@@ -1,6 +1,7 @@
 SPECIFICATION MCSpec
 CONSTANTS AggReplace = FALSE
  AggKeepFirst = FALSE
+ EarlyAdd = FALSE
  MCKinds = {"pro","misc"}
  MaxStores = 4
  MaxQ = 2
